@@ -154,6 +154,18 @@ def directed() -> list[dict[str, Any]]:
                 out.append({'name': f'dirn{k}', 'desc': {'seed': k, 'handlers': handlers, 'timeline': tl, 'faults': [], 'quiet': None, 'latency': 0.001, 'end': 'stop', 'exit_wait': 200.0,
                                                          'settings': dict(base_settings), 'trigger': 'stop_in_ns_removal', 't_trigger': 8.0, 't_final': 30.0, 'post_yields': yields,
                                                          'namespaces': ['ns1', 'ns2'], 'operator_kwargs': {'namespaces': ['ns*']}}})
+    # an essential task fails WHILE the orchestrator is busy with something else: a served stream gets an unknown ERROR event while the watcher of a
+    # namespace that has just disappeared is being drained (its worker has a slow handler in flight): the failure is noticed all the same, the operator
+    # shuts down and re-raises within the bounded grace periods
+    for yields in (0, 2, 5):
+        for d_err in (0.0, 0.001, 0.2, 0.7, 1.2):
+            k += 1
+            handlers = [{'kind': 'cleanup', 'id': 'cl0', 'script': [['ok']], 'opts': {}}, {'kind': 'update', 'id': 'u1', 'script': [['slow', 1.5]] * 50}, {'kind': 'create', 'id': 'c1'}]
+            tl = [[0.0, 'create', 'o0', {'spec': {'x': 0}}], [0.0, 'create', 'ns2/o1', {'spec': {'x': 0}}], [0.5, 'start', 'op1'],
+                  [7.3, 'edit', 'ns2/o1', {'spec': {'x': 1}}], [8.0, 'ns_del', 'ns2'], [round(8.0 + d_err, 3), 'break', 'error']]
+            out.append({'name': f'dire{k}', 'desc': {'seed': k, 'handlers': handlers, 'timeline': tl, 'faults': [], 'quiet': None, 'latency': 0.001, 'end': 'stop', 'exit_wait': 200.0,
+                                                     'settings': dict(base_settings), 'trigger': 'watch_error', 't_trigger': round(8.0 + d_err, 3), 't_final': 40.0, 'post_yields': yields,
+                                                     'namespaces': ['ns1', 'ns2'], 'operator_kwargs': {'namespaces': ['ns*']}}})
     return out
 
 
